@@ -40,6 +40,8 @@ pub fn hist_prop(id: &str) -> Option<hist::HistProp> {
 /// run one property; None = unknown id
 pub fn run(id: &str, tier: Tier, seed: u64) -> Option<i32> {
     match id {
+        "C01" => Some(c01::run(tier, seed)),
+        "C02" => Some(c02::run(tier, seed)),
         "C05" => Some(c05::run(tier, seed)),
         "C06" => Some(c06::run(tier, seed)),
         "C07" => Some(c07::run(tier, seed)),
